@@ -113,19 +113,28 @@ func c02(c *core.Ctx) {
 			}
 			c.Check("verifySigner:GetDeputyByNodeID(recovered id)", "value-flow", ok, g.Pos(), "the deputy is looked up by the node id recovered from the signature")
 		}
-		cnt(condGuard(c, fn, "deputy.MinerAddress≠block.MinerAddress", nil, func(sl map[ssa.Value]bool) bool {
+		cnt(condGuardG(c, fn, "deputy.MinerAddress≠block.MinerAddress", nil, func(g core.CondGuard) bool {
+			sl := g.Slice
+			if !rejectsWhenUnequal(g) {
+				return false
+			}
 			return core.SliceHasField(sl, c.FieldVar("chain/types.DeputyNode", "MinerAddress")) && core.SliceHasCall(sl, blk("MinerAddress")) && core.SliceHasCall(sl, gd)
 		}))
 		// tx root
 		fn = c.Fn(cons + ".verifyTxRoot")
-		cnt(condGuard(c, fn, "Txs.MerkleRootSha≠TxRoot", nil, func(sl map[ssa.Value]bool) bool {
+		cnt(condGuardG(c, fn, "Txs.MerkleRootSha≠TxRoot", nil, func(g core.CondGuard) bool {
+			sl := g.Slice
+			if !rejectsWhenUnequal(g) {
+				return false
+			}
 			return core.SliceHasCall(sl, c.Method("chain/types.Transactions", "MerkleRootSha")) && core.SliceHasCall(sl, blk("TxRoot")) &&
 				core.SliceHasField(sl, c.FieldVar("chain/types.Block", "Txs"))
 		}))
 		// height
 		fn = c.Fn(cons + ".verifyHeight")
-		cnt(condGuard(c, fn, "parent.Height+1≠Height", nil, func(sl map[ssa.Value]bool) bool {
-			return core.SliceCountCalls(sl, blk("Height")) >= 2 && core.SliceHasIntConst(sl, 1) && core.SliceHasOp(sl, token.ADD) && core.SliceHasOp(sl, token.NEQ)
+		cnt(condGuardG(c, fn, "parent.Height+1≠Height", nil, func(g core.CondGuard) bool {
+			sl := g.Slice
+			return core.SliceCountCalls(sl, blk("Height")) >= 2 && core.SliceHasIntConst(sl, 1) && core.SliceHasOp(sl, token.ADD) && rejectsWhenUnequal(g)
 		}))
 		// time
 		fn = c.Fn(cons + ".verifyTime")
@@ -177,8 +186,12 @@ func c02(c *core.Ctx) {
 		fn = c.Fn(cons + ".verifyMiner")
 		gcm := c.FuncObj(cons + ".GetCorrectMiner")
 		cnt(len(heeded(c, fn, gcm, core.ErrNonNil, 1, nil)) > 0)
-		cnt(condGuard(c, fn, "expectedMiner≠header.MinerAddress", nil, func(sl map[ssa.Value]bool) bool {
-			return core.SliceHasCall(sl, gcm) && core.SliceHasField(sl, c.FieldVar("chain/types.Header", "MinerAddress")) && core.SliceHasOp(sl, token.NEQ)
+		cnt(condGuardG(c, fn, "expectedMiner≠header.MinerAddress", nil, func(g core.CondGuard) bool {
+			sl := g.Slice
+			if !rejectsWhenUnequal(g) {
+				return false
+			}
+			return core.SliceHasCall(sl, gcm) && core.SliceHasField(sl, c.FieldVar("chain/types.Header", "MinerAddress"))
 		}))
 		for _, g := range core.CallsIn(fn, gcm) {
 			a := g.Common().Args
@@ -238,12 +251,20 @@ func c02(c *core.Ctx) {
 		// change logs
 		fn = c.Fn(cons + ".verifyChangeLog")
 		clRoot := c.Method("chain/types.ChangeLogSlice", "MerkleRootSha")
-		cnt(condGuard(c, fn, "root(computed logs)≠LogRoot", nil, func(sl map[ssa.Value]bool) bool {
+		cnt(condGuardG(c, fn, "root(computed logs)≠LogRoot", nil, func(g core.CondGuard) bool {
+			sl := g.Slice
+			if !rejectsWhenUnequal(g) {
+				return false
+			}
 			return core.SliceHasCall(sl, clRoot) && core.SliceHasCall(sl, blk("LogRoot")) && sl[fn.Params[1]]
 		}))
 		// whole header hash
 		after := c.Fn(cons + ".Validator.VerifyAfterTxProcess")
-		cnt(condGuard(c, after, "computedBlock.Hash≠block.Hash", nil, func(sl map[ssa.Value]bool) bool {
+		cnt(condGuardG(c, after, "computedBlock.Hash≠block.Hash", nil, func(g core.CondGuard) bool {
+			sl := g.Slice
+			if !rejectsWhenUnequal(g) {
+				return false
+			}
 			return core.SliceCountCalls(sl, blk("Hash")) >= 2 && sl[after.Params[1]] && sl[after.Params[2]]
 		}))
 		for _, g := range core.CallsIn(after, c.FuncObj(cons+".verifyChangeLog")) {
@@ -438,6 +459,45 @@ func c02(c *core.Ctx) {
 		// the pre-check helper is read-only with respect to those mutators
 		ign := c.Fn(cons + ".DPoVP.isIgnorableBlock")
 		c.Check("isIgnorableBlock:no-mutator", "no-call", len(core.CallsInDeep(ign, muts...)) == 0, ign.Pos(), "the duplicate/old-block pre-check must not call a chain-state mutator")
+	})
+
+	c.Clause("C02.5", "the replay test has its history after a restart: NewBlockChain refills the replay guard with the stable blocks that lie within MaxTxLifeTime of the latest stable block (not of the wall clock)")
+	c.Run("guard-history", func() {
+		nb := c.Fn("chain.NewBlockChain")
+		itp := c.Method("chain.BlockChain", "initTxPool")
+		c.Check("NewBlockChain⇒initTxPool", "must-call", len(core.CallsIn(nb, itp)) >= 1, nb.Pos(), "the replay guard is refilled when the chain is opened")
+		fn := c.Fn("chain.BlockChain.initTxPool")
+		saves := core.CallsIn(fn, c.Method("chain/txpool.TxGuard", "SaveBlock"))
+		c.Floor("initTxPool/SaveBlock", len(saves), 1)
+		max, _ := constInt(c.Const("chain/params.MaxTxLifeTime"))
+		for i, sv := range saves {
+			body, header := core.LoopOf(sv.Block())
+			ok := false
+			clock := false
+			if body != nil {
+				// the test that keeps the loop going
+				for b := range body {
+					ifi, isIf := b.Instrs[len(b.Instrs)-1].(*ssa.If)
+					if !isIf || (body[b.Succs[0]] && body[b.Succs[1]]) {
+						continue
+					}
+					if !(b == header || b.Dominates(sv.Block())) {
+						continue
+					}
+					sl := core.Slice(ifi.Cond)
+					for v := range sl {
+						if ci, isCall := v.(*ssa.Call); isCall && clockOrRandom(ci.Call.StaticCallee()) != "" {
+							clock = true
+						}
+					}
+					if core.SliceCountCalls(sl, blk("Time")) >= 2 && core.SliceHasIntConst(sl, max) && sl[fn.Params[1]] {
+						ok = true
+					}
+				}
+			}
+			c.Check("initTxPool?stable.Time−block.Time≤MaxTxLifeTime"+suffix(i, len(saves)), "quantity-guard", ok && !clock, sv.Pos(),
+				"the reload window is measured from the time of the stable block handed in (two Block.Time reads, MaxTxLifeTime; wall clock involved: %v)", clock)
+		}
 	})
 
 	c.NotDecidedf("that the comparisons use the right constants and tolerances (one second), correctness of GetCorrectMiner's slot arithmetic (C13) and of execution (C01)")
